@@ -1653,7 +1653,12 @@ class NumberOrderedForm(Operator):
                 continue
 
             # Convert the coefficient to a polynomial and extract the generators
-            poly = sympy.poly(coeff)
+            try:
+                poly = sympy.poly(coeff)
+            except sympy.polys.polyerrors.GeneratorsNeeded:
+                # sympy finds no generators in e.g. I * (1 - n); nothing to simplify
+                new_terms[powers] = coeff
+                continue
             number_gens = tuple(
                 gen for gen in poly.gens if gen in self._number_operator_placeholders
             )
